@@ -358,6 +358,7 @@ def run_driver(build, module, scns, timeout=600, env=None):
     work = tempfile.mkdtemp(prefix="drv-", dir=SCRATCH)
     todo = list(scns)
     e = dict(os.environ)
+    e["TZ"] = "UTC"      # local-time GeneralizedTime values are interpreted in the process zone (TimeText.tla assumes UTC)
     e.update({"ASAN_OPTIONS": "detect_leaks=0:abort_on_error=1:handle_abort=0:allocator_may_return_null=1",
               "UBSAN_OPTIONS": "halt_on_error=1:abort_on_error=1:print_stacktrace=1"})
     e.update(env or {})
